@@ -857,6 +857,69 @@ example : ReqOk (⟨2, fun _ => ⟨0.01, ⟨0.1, 0.2, 0.3⟩, ⟨0, 0, 9.81⟩, 
   rw [toM_zero]; exact Matrix.PosSemidef.zero
 
 
+/-! ## 13. the chunk bound as a number for float64 (pass 11) -/
+
+theorem eps64_pow6 : ((2:ℝ) ^ (-52:ℤ)) ^ 6 = (2:ℝ) ^ (-312:ℤ) := by
+  rw [← zpow_natCast, ← _root_.zpow_mul]; norm_num
+
+/-- **float64, up to 2²⁰ frames, any chunking — a number.** With `eps = 2⁻⁵²` (the threshold the float64 code uses) and at most
+`2²⁰` frames in total, chunked and one-call results have equal rotations and differ by at most
+`2⁻²⁸⁸·(#chunks+1)·Σ|dt|‖a‖` in velocity and `2⁻²⁸⁸·(#chunks+1)·Σ(|dt_i|Σ_{l<i}|dt_l|‖a_l‖ + ½dt_i²‖a_i‖)` in position —
+in exact arithmetic the Taylor branch of `so3 Exp` costs chunk invariance less than `10⁻⁸⁶` relative. -/
+theorem chunk_list_float64 (cfg : Cfg ℝ) (hr : cfg.reset = false) (hp : cfg.propCov = true) (he : cfg.eps = (2:ℝ) ^ (-52:ℤ))
+    (st : State ℝ) (hR0 : st.rot.normSq = 1) (fr : Nat → Frame ℝ) (rs : List Nat) (hrs : ∀ y ∈ rs, 1 ≤ y)
+    (m j : Nat) (hj : j < m) (hN : rs.sum + m ≤ 2 ^ 20) :
+    let r2 := call cfg (stAfterR cfg st fr rs) none (fun i => fr (rs.sum + i)) m
+    let r := call cfg st none fr (rs.sum + m)
+    let C := (2:ℝ) ^ (-288:ℤ) * ((rs.length : ℝ) + 1)
+    (outAt r.outs (rs.sum + j)).rot = (outAt r2.outs j).rot ∧
+    ((outAt r.outs (rs.sum + j)).vel.sub (outAt r2.outs j).vel).norm
+      ≤ C * ∑ i ∈ Finset.range (rs.sum + (j+1)), |(fr i).dt| * (aSeq cfg.eps cfg.g st.rot fr i).norm ∧
+    ((outAt r.outs (rs.sum + j)).pos.sub (outAt r2.outs j).pos).norm
+      ≤ C * ∑ i ∈ Finset.range (rs.sum + (j+1)), (|(fr i).dt| *
+          (∑ l ∈ Finset.range i, |(fr l).dt| * (aSeq cfg.eps cfg.g st.rot fr l).norm)
+        + 1 / 2 * ((fr i).dt * (fr i).dt) * (aSeq cfg.eps cfg.g st.rot fr i).norm) := by
+  intro r2 r C
+  have h0 : 0 ≤ cfg.eps := by rw [he]; positivity
+  have h1 : cfg.eps ≤ 1 := by rw [he, _root_.zpow_neg]; exact inv_le_one_of_one_le₀ (by norm_num)
+  have hNr : ((rs.sum + m : Nat) : ℝ) ≤ (2:ℝ) ^ (20:ℕ) := by exact_mod_cast hN
+  have he6 : cfg.eps ^ 6 = (2:ℝ) ^ (-312:ℤ) := by rw [he]; exact eps64_pow6
+  have hp312 : (0:ℝ) < (2:ℝ) ^ (-312:ℤ) := by positivity
+  -- 12·N·eps⁶ ≤ 2⁻²⁸⁸
+  have hC : 12 * ((rs.sum + m : Nat) : ℝ) * cfg.eps ^ 6 ≤ (2:ℝ) ^ (-288:ℤ) := by
+    rw [he6]
+    have e : (2:ℝ) ^ (-288:ℤ) = (2:ℝ) ^ (24:ℕ) * (2:ℝ) ^ (-312:ℤ) := by
+      rw [← zpow_natCast, ← _root_.zpow_add₀ (by norm_num : (2:ℝ) ≠ 0)]; norm_num
+    rw [e]
+    have : 12 * ((rs.sum + m : Nat) : ℝ) ≤ (2:ℝ) ^ (24:ℕ) := by
+      have : (2:ℝ) ^ (24:ℕ) = 16 * (2:ℝ) ^ (20:ℕ) := by norm_num
+      rw [this]; nlinarith
+    exact mul_le_mul_of_nonneg_right this (le_of_lt hp312)
+  have hside : 2 * ((rs.sum + m : Nat) : ℝ) * cfg.eps ^ 6 ≤ 1 := by
+    have hn : (0:ℝ) ≤ ((rs.sum + m : Nat) : ℝ) := Nat.cast_nonneg _
+    have h288 : (2:ℝ) ^ (-288:ℤ) ≤ 1 := by rw [_root_.zpow_neg]; exact inv_le_one_of_one_le₀ (one_le_zpow₀ (by norm_num) (by norm_num))
+    have hpos : 0 ≤ ((rs.sum + m : Nat) : ℝ) * cfg.eps ^ 6 := mul_nonneg hn (by rw [he6]; exact le_of_lt hp312)
+    nlinarith
+  obtain ⟨g1, g2, g3⟩ := chunk_list_every_stream_closed cfg hr hp h0 h1 st hR0 fr rs hrs m j hj hside
+  have hl : (0:ℝ) ≤ (rs.length : ℝ) + 1 := by positivity
+  have nA : 0 ≤ ∑ i ∈ Finset.range (rs.sum + (j+1)), |(fr i).dt| * (aSeq cfg.eps cfg.g st.rot fr i).norm :=
+    Finset.sum_nonneg fun i _ => mul_nonneg (abs_nonneg _) (Vec3.norm_nonneg _)
+  have nP : 0 ≤ ∑ i ∈ Finset.range (rs.sum + (j+1)), (|(fr i).dt| *
+        (∑ l ∈ Finset.range i, |(fr l).dt| * (aSeq cfg.eps cfg.g st.rot fr l).norm)
+      + 1 / 2 * ((fr i).dt * (fr i).dt) * (aSeq cfg.eps cfg.g st.rot fr i).norm) :=
+    Finset.sum_nonneg fun i _ => add_nonneg
+      (mul_nonneg (abs_nonneg _) (Finset.sum_nonneg fun l _ => mul_nonneg (abs_nonneg _) (Vec3.norm_nonneg _)))
+      (mul_nonneg (mul_nonneg (by norm_num) (mul_self_nonneg _)) (Vec3.norm_nonneg _))
+  refine ⟨g1, le_trans g2 ?_, le_trans g3 ?_⟩
+  · exact mul_le_mul_of_nonneg_right (mul_le_mul_of_nonneg_right hC hl) nA
+  · exact mul_le_mul_of_nonneg_right (mul_le_mul_of_nonneg_right hC hl) nP
+
+/-- non-vacuity: a float64 configuration and 200 frames in chunks 64 | 100 then 36 -/
+example : ∃ (cfg : Cfg ℝ) (rs : List Nat) (m : Nat), cfg.eps = (2:ℝ) ^ (-52:ℤ) ∧ cfg.reset = false ∧ cfg.propCov = true ∧
+    (∀ y ∈ rs, 1 ≤ y) ∧ rs.sum + m ≤ 2 ^ 20 ∧ rs.sum + m = 200 :=
+  ⟨⟨(2:ℝ)^(-52:ℤ), ⟨0, 0, 9.81⟩, false, true, false⟩, [100, 64], 36, rfl, rfl, rfl, by decide, by norm_num, by norm_num⟩
+
+
 /-! ## non-vacuity of the hypotheses -/
 
 example : (⟨0.6, 0, 0, 0.8⟩ : Quat ℝ).normSq = 1 := by lie_unfold; norm_num
